@@ -6,24 +6,30 @@ GEN = ["sm4tables", "sm4consts", "sm4code"]
 LEGS = [{"driver": "c05", "runner": ("sm4", "Extract/ExtractSM4.v", "Sm4_model")}]
 
 TECHNIQUE = ("Coq proof that a function-by-function model of sm4.go over the tables regenerated from the source equals a "
-             "transcription of GM/T 0002-2012 for all keys, blocks and call histories; model tied to /repo by differential runs "
-             "of the extracted model, /repo additionally checked against an independent pure-python SM4")
+             "transcription of GM/T 0002-2012 for all keys, blocks and call histories; cryptBlock and generateSubKeys are regenerated "
+             "from the source text by a partial evaluator and proved equal to the model for all inputs; the rest of the model is tied to "
+             "/repo by differential runs of the extracted model, /repo additionally checked against an independent pure-python SM4")
 LEVEL_TEXT = ("Theorems in Coq (Props/C05.v): the S-box, FK, CK and the four 256-entry T-tables read from sm4.go by the translator equal "
               "the standard's S-box (a permutation), constants, ck formula and L(Sbox(b)<<8k) (complete sweeps); the T-table round equals "
               "T = L.tau for every word; the unrolled 8x4 loops of cryptBlock, generateSubKeys, NewCipher, Encrypt, Decrypt equal the "
               "standard's key schedule / 32 rounds / reverse transform for all 16-byte keys and blocks; decryption inverts encryption and "
               "conversely (Feistel argument for any round function and any round keys); any history of Encrypt/Decrypt calls on one object "
               "returns the specification's value for each call; dst/src in one memory with any overlap; NewCipher errs exactly when "
-              "len(key) != 16. The specification is validated by the standard's vector (in Coq) and the 1,000,000-fold vector (thorough, "
+              "len(key) != 16; the Gallina code of cryptBlock (both directions) and generateSubKeys that the translator regenerates from sm4.go "
+              "(Gen/SM4Code.v) equals the model for all inputs (C05_generated_code_is_model), so for these two functions model = source is a "
+              "theorem; NewCipher, the Encrypt/Decrypt wrappers, the scratch handling and aliasing remain hand-modelled and tied by the "
+              "differential run. The specification is validated by the standard's vector (in Coq) and the 1,000,000-fold vector (thorough, "
               "extracted model and /repo).")
 LEVEL_NOTE = ("Trusted: Coq kernel incl. vm_compute, the translator reading the tables (a wrong read would break the table theorems), "
-              "extraction (ExtrOcamlBasic only), the hand-written model of the control flow of sm4.go (tied by the differential run on "
-              "every generated case), the transcription of GM/T 0002 in SM4Spec.v (tied to the standard by its two published vectors and to "
+              "extraction (ExtrOcamlBasic only), the partial evaluator that regenerates cryptBlock / generateSubKeys (harness/cmd/gen "
+              "target_sm2limbs.go + target_sm4code.go) and its N semantics of Go's uint32/uint8 operations, the hand-written model of "
+              "NewCipher, the Encrypt/Decrypt wrappers, scratch handling and aliasing (tied by the differential run on every generated case), the transcription of GM/T 0002 in SM4Spec.v (tied to the standard by its two published vectors and to "
               "an independent python SM4 by the predicate). Buffers shorter than 16 bytes and concurrent use (C20) are outside this check.")
 TRUSTED_BASE = [
     "specification coq/SM4/SM4Spec.v transcribed by hand from GM/T 0002-2012; validated by Annex A.1 (Example, vm_compute) and A.2 (1,000,000-fold, thorough tier, extracted)",
-    "model coq/SM4/SM4Model.v written by hand from sm4/sm4.go; tied by the correspondence run of this check",
-    "translator harness/cmd/gen targets sm4tables (fk, ck, sbox, sbox0..3, BlockSize) -> coq/Gen/SM4Tables.v and sm4consts (integer literals of every function, package-level variables) -> coq/Gen/SM4Consts.v",
+    "model coq/SM4/SM4Model.v written by hand from sm4/sm4.go; cryptBlock and generateSubKeys tied to the source by theorem (SM4/SM4CodeTie.v over Gen/SM4Code.v), NewCipher / Encrypt / Decrypt wrappers / scratch / aliasing by the correspondence run of this check",
+    "partial evaluator harness/cmd/gen target sm4code (target_sm2limbs.go + target_sm4code.go): straight-line Gallina over N from the Go AST (loops unrolled, pure helpers inlined, uint32 wrap as mod 2^32, shifts as * and / by powers of two, uint8 as mod 256)",
+    "translator harness/cmd/gen targets sm4tables (fk, ck, sbox, sbox0..3, BlockSize) -> coq/Gen/SM4Tables.v and sm4consts (integer literals per function, package-level variables; used for rl / l0 / p / NewCipher, whose constants are pinned, while cryptBlock and generateSubKeys carry no literal fingerprint because they are tied semantically) -> coq/Gen/SM4Consts.v",
     "extraction: ExtrOcamlBasic only; nat/positive/N stay inductive; OCaml 4.13.1 + dune; runner ocaml/sm4/main.ml and ocaml/conv.ml.tmpl",
     "Go driver harness/cmd/c05; independent oracle: the pure-python SM4 in checks/c05.py",
 ]
